@@ -1,12 +1,12 @@
 """C08 Fibers make progress; deadlock is reported exactly when nothing can run."""
 from hypothesis import strategies as st
 
-from .. import kpn, kpn_many
+from .. import kpn, kpn_bulk, kpn_many
 from .. import worker as W
 from ..oracle import crash_failure
 from ..runner import Failure, Outcome, enc
 from . import kpncommon as K
-from .c07 import labels_of, run_many
+from .c07 import labels_of, run_bulk, run_many
 
 PROPERTY = "C08"
 LEVEL = "exploration"
@@ -21,7 +21,8 @@ RULE = ("The process networks of C07, half of them unbalanced on purpose (a rece
         "or exhausting 2000x the model's step count (instruction budget hook, no wall clock) are violations. "
         "Non-trivial: >= 2 fibers and >= 1 blocked operation in the model; distinct by program text. One case in four is "
         "a Mode M network (several senders and receivers on one channel, see C07): whatever the schedule it can "
-        "always finish, so anything but a normal completion with every receiver's log printed is a violation.")
+        "always finish, so anything but a normal completion with every receiver's log printed is a violation. One case in "
+        "nine is a Mode B network (one channel of large capacity / traffic, see C07): it always finishes.")
 ASSUMPTIONS = ["liveness is checked in bounded form: termination within 2000x the model's step count",
                "determinacy of single-writer single-reader networks (see C07)"]
 GATES = {"nontrivial": 0.40, "model:complete": 0.10, "model:deadlock": 0.10}
@@ -36,8 +37,8 @@ def cases(tier):
 
 
 def strategy(hazards):
-    return st.tuples(st.one_of(kpn.network(False, hazards), kpn.network(True, hazards), kpn.network(True, hazards),
-                               kpn_many.many_network(hazards)), st.integers(0, 7))
+    pool = [kpn.network(False, hazards), kpn.network(True, hazards), kpn.network(True, hazards), kpn_many.many_network(hazards)]
+    return st.tuples(st.integers(0, 8).flatmap(lambda k: kpn_bulk.bulk_network() if k == 5 else pool[k % 4]), st.integers(0, 7))
 
 
 def run_case(case, ctx):
@@ -47,6 +48,8 @@ def run_case(case, ctx):
     net, sel = case
     if net.get("mode") == "M":
         return run_many(PROPERTY, case, ctx, kpn_many.progress_failure)
+    if net.get("mode") == "B":
+        return run_bulk(PROPERTY, case, ctx, True)
     fail = None
     runs = 0
     ev = None
